@@ -23,6 +23,7 @@ RULE = (
     "SupportsConfig component and each enum member saved on its own; the five shipped YAML files. A probe input counts for an "
     "option only if toggling that option on the original object changes the observable result on it. Non-trivial = "
     "configuration with at least one sensitive probe; distinct = hash of the configuration."
+    ' Further: every third re-save happens under a wall clock shifted by days; a deliberately failing save precedes the cases; by-name save/load with dotted names on a scratch copy of the package.'
 )
 ASSUMPTIONS = [
     "observable result = all reported metrics per group, whether computation_time is set, and the kinds of lines printed (for log_times / verbose)",
